@@ -562,58 +562,71 @@ def identity_compare(system, option, ts, seed, dt, diffuse):
     return True, det
 
 
+def simulate_cg_check(c, ts, dt):
+    """simulate(..., cgmap=map) on the Euler engine versus the fine grid; returns (status, detail):
+    status in ok | skipped | unusable | raises | bad"""
+    from strengths import simulate
+    system = build(c)
+    n = len(c["envs"])
+    im, ns = c["im"], c["ns"]
+    why = unsafe_graph(system, im)
+    if why:
+        # zero centroid distance between non-contiguous groups is legitimate geometry but unusable for a simulation: skip those
+        if "distance" in why and "surface" in why:
+            return "skipped", why
+        return "unusable", why
+    try:
+        out = simulate(system, t_sample=ts, engine=common.load_engine("euler"), time_step=dt, cgmap=list(im))
+    except Exception as e:  # noqa
+        return "raises", repr(e)
+    vals = [float(v) for v in np.asarray(out.data.value).ravel()]
+    ng = max(im) + 1
+    members = [[i for i in range(n) if im[i] == g] for g in range(ng)]
+    bad = None
+    if len(vals) != len(ts) * ns * n:
+        bad = "size %d" % len(vals)
+    else:
+        free = [all(c["chem"][s * n + i] == 0 for i in range(n)) for s in range(ns)]
+        for kk in range(len(ts)):
+            for s in range(ns):
+                row = vals[kk * ns * n + s * n:(kk * ns * n + (s + 1) * n)]
+                tot0 = sum(frac(c["state"][s * n + i]) for i in range(n) if im[i] != -1)
+                for g in range(ng):
+                    if any(not close(row[i], frac(row[members[g][0]]), mag=1, rel=1e-9) for i in members[g]):
+                        bad = bad or "sample %d species %d group %d not spread evenly" % (kk, s, g)
+                    if kk == 0:
+                        e0 = sum(frac(c["state"][s * n + i]) for i in members[g]) / len(members[g])
+                        if not close(row[members[g][0]], e0, mag=1, rel=1e-9):
+                            bad = bad or "sample 0 species %d group %d is %r, initial group total / size = %r" % (s, g, row[members[g][0]], float(e0))
+                if any(row[i] != 0.0 for i in range(n) if im[i] == -1):
+                    bad = bad or "sample %d species %d: dropped cell non-zero" % (kk, s)
+                if free[s] and not close(float(sum(frac(v) for v in row)), tot0, mag=max(tot0, 1), rel=1e-9):
+                    bad = bad or "sample %d species %d: total %r, retained cells initially hold %r" % (kk, s, float(sum(frac(v) for v in row)), float(tot0))
+    if bad:
+        return "bad", {"why": bad, "data": vals[:24]}
+    return "ok", None
+
+
 def cg_structure_runs(ctx, rng, count):
     """simulate(..., cgmap=map).data versus the fine grid: sample 0 = even spreading of the initial group totals, every later
     sample constant within groups, dropped cells zero, species totals over retained cells preserved when nothing reacts"""
-    from strengths import simulate
     for k in range(count):
         c = gen_case(rng)
         c["gsys"] = c["vsys"] = c["ssys"] = ("µm", "s", "molecule")
-        system = build(c)
-        n = len(c["envs"])
-        im, ns = c["im"], c["ns"]
         ts = [0.0, 0.25, 0.5]
         case = {"sys": case_json(c), "simulate_cg": {"t_sample": ts, "time_step": 1 / 64}}
-        why = unsafe_graph(system, im)
-        if why:
-            # zero centroid distance between non-contiguous groups is legitimate geometry but unusable for a simulation: skip those
-            if "distance" in why and "surface" in why:
-                ctx.count("simulate_cgmap_skipped_zero_distance")
-                continue
-            ctx.violation("simulate-cg:unusable-graph", "coarse-grained system cannot be simulated: " + why, case, impl=why)
+        st, det = simulate_cg_check(c, ts, 1 / 64)
+        if st == "skipped":
+            ctx.count("simulate_cgmap_skipped_zero_distance")
             continue
-        try:
-            out = simulate(system, t_sample=ts, engine=common.load_engine("euler"), time_step=1 / 64, cgmap=list(im))
-        except Exception as e:  # noqa
-            ctx.violation("simulate-cg:raises", "simulate(cgmap=valid map) raised %r" % (e,), case, impl=repr(e))
-            continue
-        vals = [float(v) for v in np.asarray(out.data.value).ravel()]
-        ng = max(im) + 1
-        members = [[i for i in range(n) if im[i] == g] for g in range(ng)]
-        ctx.case(("simcg", tuple(c["shape"]), tuple(im)), nontrivial=True)
+        ctx.case(("simcg", tuple(c["shape"]), tuple(c["im"])), nontrivial=True)
         ctx.count("simulate_cgmap")
-        bad = None
-        if len(vals) != len(ts) * ns * n:
-            bad = "size %d" % len(vals)
-        else:
-            free = [all(c["chem"][s * n + i] == 0 for i in range(n)) for s in range(ns)]
-            for kk in range(len(ts)):
-                for s in range(ns):
-                    row = vals[kk * ns * n + s * n:(kk * ns * n + (s + 1) * n)]
-                    tot0 = sum(frac(c["state"][s * n + i]) for i in range(n) if im[i] != -1)
-                    for g in range(ng):
-                        if any(not close(row[i], frac(row[members[g][0]]), mag=1, rel=1e-9) for i in members[g]):
-                            bad = bad or "sample %d species %d group %d not spread evenly" % (kk, s, g)
-                        if kk == 0:
-                            e0 = sum(frac(c["state"][s * n + i]) for i in members[g]) / len(members[g])
-                            if not close(row[members[g][0]], e0, mag=1, rel=1e-9):
-                                bad = bad or "sample 0 species %d group %d is %r, initial group total / size = %r" % (s, g, row[members[g][0]], float(e0))
-                    if any(row[i] != 0.0 for i in range(n) if im[i] == -1):
-                        bad = bad or "sample %d species %d: dropped cell non-zero" % (kk, s)
-                    if free[s] and not close(float(sum(frac(v) for v in row)), tot0, mag=max(tot0, 1), rel=1e-9):
-                        bad = bad or "sample %d species %d: total %r, retained cells initially hold %r" % (kk, s, float(sum(frac(v) for v in row)), float(tot0))
-        if bad:
-            ctx.violation("simulate-cg:structure", "simulate(cgmap=map): " + bad, case, impl=vals[:24])
+        if st == "unusable":
+            ctx.violation("simulate-cg:unusable-graph", "coarse-grained system cannot be simulated: " + det, case, impl=det)
+        elif st == "raises":
+            ctx.violation("simulate-cg:raises", "simulate(cgmap=valid map) raised %s" % det, case, impl=det)
+        elif st == "bad":
+            ctx.violation("simulate-cg:structure", "simulate(cgmap=map): " + det["why"], case, impl=det["data"])
 
 
 # ------------------------------------------------------------------------------------------------- main
@@ -822,8 +835,9 @@ def replay(ctx, rec):
         import random
         uncg_replay(v, c, cg, case["uncg"])
     if "simulate_cg" in case:
-        out["note"] = "re-run the check with the same VERIF_SEED to reproduce the simulate(cgmap=...) case"
-        return False, out
+        st, det = simulate_cg_check(c, case["simulate_cg"]["t_sample"], case["simulate_cg"]["time_step"])
+        out.update(simulate_cgmap=st, detail=det)
+        return st in ("ok", "skipped"), out
     out["failures"] = v.v
     return not v.v, out
 
